@@ -263,10 +263,14 @@ static void proj(FILE *f, const vrt_rec_t *r)
 			break;
 		}
 		if (r->cls == 2) {
-			/* item list of the queue: only the exchange of dq_items_tail is projected (who made the list non-empty) */
-			if (r->obj == g_obj && !strcmp(r->site->dvs_op, "xchg") && strstr(r->site->dvs_expr, "tail"))
-				fprintf(f, "{\"e\":\"Tail\",\"t\":%d,\"f\":\"%s\",\"first\":%s}\n", r->tid, r->site->dvs_func,
-						r->oldv == 0 ? "true" : "false");
+			/* item list of the queue: who made the list non-empty (exchange of dq_items_tail) and when it became empty again */
+			if (r->obj == g_obj && strstr(r->site->dvs_expr, "tail")) {
+				if (!strcmp(r->site->dvs_op, "xchg"))
+					fprintf(f, "{\"e\":\"Tail\",\"t\":%d,\"f\":\"%s\",\"first\":%s,\"null\":%s}\n", r->tid, r->site->dvs_func,
+							r->oldv == 0 ? "true" : "false", r->newv == 0 ? "true" : "false");
+				else if (!strcmp(r->site->dvs_op, "cmpxchg") && r->ok && r->newv == 0)
+					fprintf(f, "{\"e\":\"Tail\",\"t\":%d,\"f\":\"%s\",\"first\":false,\"null\":true}\n", r->tid, r->site->dvs_func);
+			}
 			break;
 		}
 		if (r->cls != 1) break;
